@@ -82,6 +82,30 @@ func (c *vCtx) cancel(deadline bool) {
 
 var _ context.Context = (*vCtx)(nil)
 
+// vRunCtx is the context of one harness run together with its cancel function. Three kinds: the
+// harness's own vCtx, a real context.WithCancel, and a real context.WithCancelCause cancelled with a
+// cause different from its Err() (the real context package is interpreted from its source).
+type vRunCtx struct {
+	context.Context
+	cancelFn func(deadline bool)
+}
+
+func (r *vRunCtx) cancel(deadline bool) { r.cancelFn(deadline) }
+
+func vNewRunCtx(label string) *vRunCtx {
+	switch vChoice(label+".ctxKind", 3) {
+	case 0:
+		c := vNewCtx()
+		return &vRunCtx{Context: c, cancelFn: c.cancel}
+	case 1:
+		c, cancel := context.WithCancel(context.Background())
+		return &vRunCtx{Context: c, cancelFn: func(bool) { cancel() }}
+	default:
+		c, cancel := context.WithCancelCause(context.Background())
+		return &vRunCtx{Context: c, cancelFn: func(bool) { cancel(vNewErr()) }}
+	}
+}
+
 // vTok is a pointer payload with identity.
 type vTok struct{ id int }
 
